@@ -403,13 +403,15 @@ class ProvRecord(object):
                 # (i.e. attribute-value pairs)
                 attributes = attributes.items()
 
-            # Check if one of the attributes specifies that the current type
-            # is a collection. In that case multiple attributes of the same
-            # type are allowed.
-            if PROV_ATTR_COLLECTION in [_i[0] for _i in attributes]:
-                is_collection = True
-            else:
-                is_collection = False
+            # Check if the attributes specify a collection with several
+            # members (the PROV-JSON way of listing the entities of one
+            # membership). Only in that case multiple prov:entity values are
+            # allowed.
+            attr_names = [_i[0] for _i in attributes]
+            has_multiple_members = (
+                PROV_ATTR_COLLECTION in attr_names
+                and attr_names.count(PROV_ATTR_ENTITY) > 1
+            )
 
             for attr_name, original_value in attributes:
                 if original_value is None:
@@ -443,7 +445,7 @@ class ProvRecord(object):
                     )
 
                 if (
-                    not is_collection
+                    not (has_multiple_members and attr == PROV_ATTR_ENTITY)
                     and attr in PROV_ATTRIBUTES
                     and self._attributes[attr]
                 ):
